@@ -201,6 +201,12 @@ func c03PathItem(desc string) map[string]any {
 	return map[string]any{"get": map[string]any{"responses": map[string]any{"200": map[string]any{"description": desc}}}}
 }
 
+// c03SelfCallbackItem: a real path item one of whose callbacks holds a path-item reference to `target`
+func c03SelfCallbackItem(target string) map[string]any {
+	return map[string]any{"post": map[string]any{"responses": map[string]any{"200": map[string]any{"description": "r"}},
+		"callbacks": map[string]any{"cb": map[string]any{"{$request.body#/url}": c03Ref(target)}}}}
+}
+
 func genC03Loader(ctx *hx.Ctx, emit0 func(hx.Case)) {
 	// every directed document goes through LoadFromData(WithPath) and, in turn (thorough: both), through
 	// LoadFromFile (real files in a fresh directory) and json/yaml.Unmarshal + ResolveRefsIn
@@ -308,6 +314,18 @@ func genC03Loader(ctx *hx.Ctx, emit0 func(hx.Case)) {
 		op := map[string]any{"responses": map[string]any{"200": map[string]any{"description": "r"}},
 			"callbacks": map[string]any{"cb": map[string]any{"{$request.body#/url}": c03Ref(target)}}}
 		paths := map[string]any{"/a": map[string]any{"post": op}, "/b": c03PathItem("b"), "/c": c03Ref("#/paths/~1b")}
+		emit(c03LoaderCase(base(paths), nil, formats[i%2]))
+	}
+	// the key of a path-item reference met again while it is in progress (the node is queued and overwritten later by the
+	// deferred callback with the owner's node): a referenced path item whose own callback refers to it, reached directly,
+	// through a chain, and from two referrers
+	for i, paths := range []map[string]any{
+		{"/a": c03Ref("#/paths/~1b"), "/b": c03SelfCallbackItem("#/paths/~1b")},
+		{"/z": c03Ref("#/paths/~1b"), "/b": c03SelfCallbackItem("#/paths/~1b")},
+		{"/a": c03Ref("#/paths/~1c"), "/c": c03Ref("#/paths/~1b"), "/b": c03SelfCallbackItem("#/paths/~1b")},
+		{"/a": c03Ref("#/paths/~1b"), "/z": c03Ref("#/paths/~1b"), "/b": c03SelfCallbackItem("#/paths/~1b")},
+		{"/a": c03Ref("#/paths/~1b"), "/b": c03SelfCallbackItem("#/paths/~1a")},
+	} {
 		emit(c03LoaderCase(base(paths), nil, formats[i%2]))
 	}
 	use := map[string]bool{}
